@@ -172,6 +172,7 @@ type golite struct {
 	prims   map[string]primCfg   // qualified Go function name -> cfg
 	fns     map[string]*fnCfg    // qualified Go function name -> cfg (translated functions)
 	zero    map[string]string    // Lean zero value per Go field type string (for composite literals)
+	stringsAsBytes bool          // Go strings are byte strings (wire level)
 }
 
 func qualName(pkgPath, name string) string { return pkgPath + "." + name }
@@ -220,6 +221,10 @@ func (g *golite) ltypeOf(t types.Type) (ltype, error) {
 		case types.Bool, types.UntypedBool:
 			return ltype{k: kBool, lean: "Bool"}, nil
 		case types.String, types.UntypedString:
+			if g.stringsAsBytes {
+				b := ltype{k: kByte, bits: 8, lean: "Byte"}
+				return ltype{k: kList, elem: &b, lean: "Bytes"}, nil
+			}
 			return ltype{k: kString, lean: "String"}, nil
 		}
 	case *types.Slice:
